@@ -298,6 +298,22 @@ def c16_cases(ctx):
             ops += ["adler %d @" % a0, "adlersplit %d @ %s" % (a0, cs), "crc %d @" % c0, "crcsplit %d @ %s" % (c0, cs),
                     "adler %d @" % a0, "mzadler %d @" % (a0 + hi), "crc %d @" % c0, "mzcrc %d @" % (c0 + hi)]
             ctx.add(cid, ops, kind="sum", ln=ln)
+    # modular boundaries: starting values chosen so that the low (resp. high) half of the running Adler-32 lands exactly
+    # on a multiple of 65521 at the end of a short piece (and at the end of each prefix of a split)
+    for ln in list(range(1, 34)) + [63, 64, 65, 255, 5552, 5553]:
+        for which in range(3):
+            data = rng.bytes(ln) if which < 2 else b"\xff" * ln
+            s1 = (65521 - sum(data) % 65521) % 65521 if which != 1 else rng.below(65521)
+            t = zlib.adler32(data, s1) >> 16          # high half reached from s2 = 0
+            s2 = (65521 - t) % 65521 if which >= 1 else rng.below(65521)
+            a0 = (s2 << 16) | s1
+            n += 1
+            cs = ",".join(str(c) for c in range(0, ln + 1)) if ln <= 64 else "%d,%d" % (ln // 2, ln - 1)
+            hi = rng.range(1, 0xFFFFFFFF) << 32
+            c0 = zlib.crc32(rng.bytes(3))
+            ops = ["in %s" % hx(data), "adler %d @" % a0, "adlersplit %d @ %s" % (a0, cs), "crc %d @" % c0, "crcsplit %d @ %s" % (c0, cs),
+                   "adler %d @" % a0, "mzadler %d @" % (a0 + hi), "crc %d @" % c0, "mzcrc %d @" % (c0 + hi)]
+            ctx.add("ckb%d" % n, ops, kind="sum", ln=ln)
     ctx.add("cknull", ["mzadler 12345 null", "mzcrc 12345 null"], kind="null")
     # running checksums: compressor (zlib format) and decoders
     nrun = 40 if thorough else 14
